@@ -35,12 +35,16 @@ ValidExt(e) == e[1] \in cfg.ext /\ e[2] >= 1 /\ e[2] <= 65535
 
 Configure(c) == cfg' = c /\ maps' = Maps0 /\ owner' = Owner0 /\ now' = 0
 \* time passes; entries that are certainly dead are forgotten (keeps the tables small)
+\* (forgetting is an optimisation only - dead entries are ignored everywhere - so it is done once per
+\* lifetime-sized period rather than at every step)
+Period == IF cfg.mode = "napt" /\ cfg.life > 0 THEN cfg.life ELSE 1
 Tick(t) == /\ t >= now /\ now' = t /\ UNCHANGED cfg
-           /\ LET keep == {x \in DOMAIN maps : x = Sentinel \/ t - maps[x].last <= cfg.life} IN
-              /\ maps' = [k \in keep |-> maps[k]]
-              /\ owner' = [e \in {x \in DOMAIN owner : owner[x] \in keep} |-> owner[e]]
+           /\ IF t \div Period = now \div Period THEN UNCHANGED <<maps, owner>>
+              ELSE LET keep == {x \in DOMAIN maps : x = Sentinel \/ t - maps[x].last <= cfg.life} IN
+                   /\ maps' = [k \in keep |-> maps[k]]
+                   /\ owner' = [e \in {x \in DOMAIN owner : owner[x] \in keep} |-> owner[e]]
 
-Put(f, k, v) == [x \in DOMAIN f \cup {k} |-> IF x = k THEN v ELSE f[x]]
+Put(f, k, v) == (k :> v) @@ f        \* (TLC evaluates @@ without looking up every entry)
 
 \* Outbound datagram src -> dst.  res = "ok" with the translated source e, or "drop".
 Outbound(src, dst, res, e) ==
@@ -60,7 +64,7 @@ Outbound(src, dst, res, e) ==
                /\ res = "ok" /\ ValidExt(e) /\ ~HeldLive(e)
                \* whoever held e before is dead now (matters only at exactly one lifetime)
                /\ LET old == IF Own(e) # k THEN {Own(e)} \ {Sentinel} ELSE {}
-                      rest == [x \in DOMAIN maps \ old |-> maps[x]]
+                      rest == IF old = {} THEN maps ELSE [x \in DOMAIN maps \ old |-> maps[x]]
                   IN  maps' = Put(rest, k, [ext |-> e, perms |-> {fk}, last |-> now])
                /\ owner' = Put(owner, e, k)
             \/ /\ (~Has(k) \/ MayDie(M(k)))                       \* nothing left to allocate
@@ -77,7 +81,7 @@ OutboundGiven(src, dst, res, e) ==
                  THEN /\ maps' = Put(maps, k, [ext |-> e, perms |-> M(k).perms \cup {fk}, last |-> now])
                       /\ UNCHANGED owner
                  ELSE /\ LET old == IF Own(e) # k THEN {Own(e)} \ {Sentinel} ELSE {}
-                             rest == [x \in DOMAIN maps \ old |-> maps[x]]
+                             rest == IF old = {} THEN maps ELSE [x \in DOMAIN maps \ old |-> maps[x]]
                          IN  maps' = Put(rest, k, [ext |-> e, perms |-> {fk}, last |-> now])
                       /\ owner' = Put(owner, e, k)
 
